@@ -73,6 +73,7 @@ fn costs_json(case: &JsonValue, full: bool) -> JsonValue {
                 }
             }
             o["sec_errors"] = errs;
+            o["agg"] = table_json(&r.aggregate_gains_table);
             match &r.costs_tables {
                 Some(c) => {
                     o["total"] = table_json(&c.total);
@@ -127,6 +128,10 @@ pub fn handle(case: &JsonValue) -> JsonValue {
                     e["act"] = d.tx.action().pretty_str().into();
                     e["pre"] = match d.pre_status.total_acb {
                         Some(v) => JsonValue::String((*v).to_string()),
+                        None => JsonValue::Null,
+                    };
+                    e["gain"] = match d.capital_gain {
+                        Some(v) => JsonValue::String(v.to_string()),
                         None => JsonValue::Null,
                     };
                     e["post"] = match d.post_status.total_acb {
